@@ -110,7 +110,7 @@ func init() {
 			for k := 0; k < nFmtKinds; k++ {
 				obs = append(obs, Oblig{Harness: "H_conf", Args: []int{k}})
 			}
-			for k := 100; k < 114; k++ {
+			for k := 100; k < 115; k++ {
 				obs = append(obs, Oblig{Harness: "H_conf", Args: []int{k}})
 			}
 			return obs
@@ -147,6 +147,22 @@ func histObligs(tier string, panicViol bool) []Oblig {
 			obs = append(obs, Oblig{Harness: "H_hist2", Args: []int{1, a, 0, 1, c}, PanicViol: panicViol})
 			obs = append(obs, Oblig{Harness: "H_hist2", Args: []int{1, a, 0, 15, c}, PanicViol: panicViol})
 		}
+	}
+	// template payloads (marker / LF inside the first payload) followed by a byte, rune or string write
+	tplA, tplT, tplB := []int{1, 8}, []int{103, 104, 110}, []int{5, 10, 3, 0}
+	if tier == "thorough" {
+		tplA, tplT, tplB = []int{1, 7, 8, 9, 15}, []int{101, 103, 104, 108, 110, 111}, []int{5, 10, 3, 11, 1, 0}
+	}
+	for _, a := range tplA {
+		for _, t := range tplT {
+			for _, b := range tplB {
+				obs = append(obs, Oblig{Harness: "H_hist2", Args: []int{t, a, 1, b}, PanicViol: panicViol})
+			}
+		}
+	}
+	// a Printf whose last verb carries width/precision/flags, then numeric safe writes
+	for _, sc := range [][]int{{19, 12}, {19, 13}, {19, 14}, {19, 0}, {12, 19}, {19, 19}} {
+		obs = append(obs, Oblig{Harness: "H_hist2", Args: []int{1, sc[0], 1, sc[1]}, PanicViol: panicViol})
 	}
 	// a longer first payload, then an empty unsafe write, then a mode switch
 	for _, a := range []int{1, 15} {
@@ -286,11 +302,11 @@ func init() {
 
 // ---- printer-level tables ----
 
-const nFmtKinds = 57 // fmt-compatible value kinds of h_values.go
-const nDirectives = 50
+const nFmtKinds = 59 // fmt-compatible value kinds of h_values.go
+const nDirectives = 54
 
 // kinds whose rendering depends on the string leaf
-var strKinds = []int{0, 1, 2, 12, 13, 14, 15, 16, 18, 19, 21, 25, 26, 27, 28, 31, 33, 34, 35, 36, 37, 38, 39, 41, 42, 43, 44, 47, 51, 52, 54}
+var strKinds = []int{0, 1, 2, 12, 13, 14, 15, 16, 18, 19, 21, 25, 26, 27, 28, 31, 33, 34, 35, 36, 37, 38, 39, 41, 42, 43, 44, 47, 51, 52, 54, 56, 57}
 var deepStrKinds = []int{0, 1, 14, 25, 27, 31, 35}
 var deepDirs = []int{0, 2, 3, 4, 5, 16, 17, 19, 20, 21, 25, 28}
 
@@ -362,11 +378,11 @@ func init() {
 	})
 }
 
-var c02RedactKinds = []int{103, 104, 105, 106, 110, 111, 112, 113}
+var c02RedactKinds = []int{103, 104, 105, 106, 110, 111, 112, 113, 114}
 
 func hasPrecision(d int) bool {
 	switch d {
-	case 19, 20, 27, 39:
+	case 19, 20, 27, 39, 50, 51, 52, 53:
 		return true
 	}
 	return false
@@ -413,6 +429,14 @@ func c02Obligs(tier string) []Oblig {
 					continue
 				}
 				obs = append(obs, Oblig{Harness: "H_c02", Args: []int{k, d, dn, lf}})
+			}
+		}
+	}
+	// two operands in one call, the first under a wrapper
+	for _, k1 := range []int{106, 114, 0, 14} {
+		for w1 := 0; w1 < 3; w1++ {
+			for _, k2 := range []int{114, 106, 0} {
+				obs = append(obs, Oblig{Harness: "H_c02m", Args: []int{k1, w1, k2, 1}})
 			}
 		}
 	}
@@ -463,7 +487,7 @@ func init() {
 	})
 }
 
-var redactKinds = []int{100, 101, 102, 103, 104, 105, 106, 107, 108, 109, 110, 111, 112, 113}
+var redactKinds = []int{100, 101, 102, 103, 104, 105, 106, 107, 108, 109, 110, 111, 112, 113, 114}
 
 func valsObligs(tier string) []Oblig {
 	var obs []Oblig
@@ -705,7 +729,7 @@ func init() {
 
 // ---- C08, C11 (join, user panics), C14, C15, C16, C17, C06, C05, C12 ----
 
-var c08Dirs = []int{0, 1, 2, 3, 4, 5, 6, 7, 8, 9, 10, 11, 12, 14, 15, 16, 17, 18, 19, 20, 21, 22, 24, 25, 26, 27, 28, 29, 30, 31, 34, 35, 36, 38, 39, 40, 41, 48}
+var c08Dirs = []int{0, 1, 2, 3, 4, 5, 6, 7, 8, 9, 10, 11, 12, 14, 15, 16, 17, 18, 19, 20, 21, 22, 24, 25, 26, 27, 28, 29, 30, 31, 34, 35, 36, 38, 39, 40, 41, 48, 50, 51, 52, 53}
 
 func c08Obligs(tier string) []Oblig {
 	var obs []Oblig
@@ -811,7 +835,7 @@ func c15Obligs(tier string) []Oblig {
 		args = append(args, ops...)
 		obs = append(obs, Oblig{Harness: "H_c15", Args: args})
 	}
-	opKinds := []int{0, 1, 2, 3, 4, 5, 6, 7, 8, 9}
+	opKinds := []int{0, 1, 2, 3, 4, 5, 6, 7, 8, 9, 10}
 	wTok := []int{0, 6, 7, 8, 10}
 	// one token
 	for _, t := range []int{0, 1, 6, 7, 8, 9, 10} {
@@ -824,7 +848,7 @@ func c15Obligs(tier string) []Oblig {
 	// two tokens
 	for _, t1 := range []int{0, 1, 2, 4, 5, 8, 9} {
 		for _, t2 := range []int{0, 1, 6, 8, 9} {
-			for _, k1 := range []int{0, 2, 3, 5, 8} {
+			for _, k1 := range []int{0, 2, 3, 5, 8, 10} {
 				for _, k2 := range []int{0, 2, 3, 6, 7} {
 					isW := func(t int) bool { return t == 0 || t >= 6 && t <= 11 }
 					if !isW(t1) && !isW(t2) {
@@ -874,6 +898,9 @@ func c16Obligs(tier string) []Oblig {
 	for v := 0; v < 5; v++ {
 		obs = append(obs, Oblig{Harness: "H_c16e", Args: []int{v}})
 	}
+	for wm := 0; wm < 3; wm++ {
+		obs = append(obs, Oblig{Harness: "H_c16", Args: []int{0, 0, 1, 2, wm}})
+	}
 	for _, k := range []int{0, 3, 7, 14, 19, 102} {
 		for pi := 0; pi < 6; pi++ {
 			for pf := 0; pf < 2; pf++ {
@@ -898,6 +925,11 @@ func c17Obligs(tier string) []Oblig {
 				}
 			}
 			obs = append(obs, Oblig{Harness: "H_c17", Args: []int{ek, pos, 0, 1, 1, 1}})
+		}
+		for pos := 9; pos <= 12; pos++ {
+			for hook := 0; hook < 2; hook++ {
+				obs = append(obs, Oblig{Harness: "H_c17", Args: []int{ek, pos, 0, 1, hook, 0}})
+			}
 		}
 		for pre := 1; pre <= 3; pre++ {
 			for _, pos := range []int{0, 2, 6, 7} {
@@ -990,16 +1022,19 @@ func c05Obligs(tier string) []Oblig {
 
 func c12Obligs(tier string) []Oblig {
 	var obs []Oblig
-	for probe := 0; probe < 8; probe++ {
-		for h := 0; h < 16; h++ {
+	for probe := 0; probe < 10; probe++ {
+		for h := 0; h < 19; h++ {
 			if h == 14 && tier != "thorough" {
 				continue
 			}
 			obs = append(obs, Oblig{Harness: "H_c12", Args: []int{probe, 1, h}, PoolMode: 1})
 		}
 		if tier == "thorough" {
-			for h1 := 0; h1 < 14; h1++ {
-				for _, h2 := range []int{0, 4, 5, 7, 9, 12} {
+			for h1 := 0; h1 < 19; h1++ {
+				if h1 == 14 {
+					continue
+				}
+				for _, h2 := range []int{0, 4, 5, 7, 9, 12, 16} {
 					obs = append(obs, Oblig{Harness: "H_c12", Args: []int{probe, 1, h1, h2}, PoolMode: 1})
 				}
 			}
